@@ -295,5 +295,42 @@ def r6_delegation(ctx):
         ctx.ob("C19.R6", "delegates|" + f, bool(reach & targets), "`%s` forwards to %s" % (f, sorted(targets)), loc=b.loc())
 
 
-RULES = [("C19.R1", r1_receive_paths), ("C19.R2", r2_send_path), ("C19.R3", r3_fairness), ("C19.R4", r4_guards),
+def r7_notify(ctx):
+    """Notify (narrow, required effects): at most one stored permit (a bool), notify_one either stores the permit or hands it to
+    exactly one removed waiter (no loop), notify_waiters takes the whole waiter list and signals every element, a waiter consumes
+    the stored permit with mem::replace, a dropped un-notified waiter leaves the queue."""
+    from engine.slicing import FlowSlicer
+    from engine.facts import last_field
+    prog = ctx.prog
+    N = T + "notify::"
+    a = prog.adts.get(N + "NotifyState")
+    pty = [f["ty"] for v in a["variants"] for f in v["fields"] if f["name"] == "pending"] if a else []
+    ctx.ob("C19.R7", "permit-is-a-bool", pty == ["bool"], "Notify stores its pending permit in a bool (at most one permit): %s" % pty)
+    n1 = ctx.body(N + "Notify::notify_one", "C19.R7")
+    fs = FlowSlicer(n1)
+    PEND = N + "NotifyState.pending"
+    setp = [s for s, st in n1.assigns() if last_field(st["dst"]) == PEND and st["rv"]["k"] == "use" and st["rv"]["ops"][0].get("ev") == 1]
+    sends = [s for s, t in n1.calls() if any(c.endswith("oneshot::Sender::send") for c in n1.callees_of_call(t, passed=False))]
+    rem = [s for s, t in n1.calls() if N + "NotifyState::remove_waiter" in n1.callees_of_call(t, passed=False)]
+    ok = bool(setp) and any(l.endswith("Vec::is_empty") for l in fs.guard_labels(setp[0]))
+    ctx.ob("C19.R7", "notify_one-stores-permit-when-nobody-waits", ok, "notify_one sets `pending` when no enabled waiter exists (the notification is not lost)", loc=n1.loc())
+    ok = len(sends) == 1 and len(rem) == 1 and n1.path_exists(sends[0], lambda x: x == sends[0]) is None and n1.site_dominates(rem[0], sends[0])
+    ctx.ob("C19.R7", "notify_one-wakes-exactly-one", ok, "notify_one removes one waiter from the queue and signals it once (not in a loop)", loc=n1.loc())
+    ctx.ob("C19.R7", "notify_one-either-or", bool(setp) and bool(sends) and n1.path_exists(setp[0], lambda x: x == sends[0]) is None and n1.path_exists(sends[0], lambda x: x == setp[0]) is None,
+           "storing the permit and waking a waiter are mutually exclusive paths", loc=n1.loc())
+    nw = ctx.body(N + "Notify::notify_waiters", "C19.R7")
+    tk = [s for s, t in nw.calls() if "core::mem::take" in nw.callees_of_call(t, passed=False)]
+    sends = [s for s, t in nw.calls() if any(c.endswith("oneshot::Sender::send") for c in nw.callees_of_call(t, passed=False))]
+    ok = bool(tk) and bool(sends) and all(nw.path_exists(s, lambda x, s=s: x == s) is not None for s in sends)
+    ctx.ob("C19.R7", "notify_waiters-signals-all", ok, "notify_waiters takes the whole waiter list and signals every element (loop)", loc=nw.loc())
+    pi = ctx.body(N + "Notified::poll_inner", "C19.R7")
+    rp = [s for s, t in pi.calls() if "core::mem::replace" in pi.callees_of_call(t, passed=False)]
+    ok = bool(rp) and kinds.operand_const(pi, pi.term(rp[0].bb)["args"][1]) == 0
+    ctx.ob("C19.R7", "waiter-consumes-permit", ok, "a waiter consumes the stored permit with mem::replace(&mut pending, false)", loc=pi.loc())
+    dk = [b for b in prog.all_bodies({"shuttle_tokio_impl_inner"}) if "notify::Notified as pin_project::__private::PinnedDrop>::drop" in b.nkey and
+          any(N + "NotifyState::remove_waiter" in b.callees_of_call(t, passed=False) for s, t in b.calls())]
+    ctx.ob("C19.R7", "dropped-waiter-leaves-queue", bool(dk), "dropping an un-notified Notified removes its waiter from the queue", loc=dk[0].loc() if dk else None)
+
+
+RULES = [("C19.R7", r7_notify), ("C19.R1", r1_receive_paths), ("C19.R2", r2_send_path), ("C19.R3", r3_fairness), ("C19.R4", r4_guards),
          ("C19.R5", r5_close), ("C19.R6", r6_delegation)]
